@@ -288,7 +288,10 @@ class Output(BaseOutput):
         if npid == 0:
             return
         ncvar = self.nc.variables[var]
-        row = np.ma.masked_all(npid, dtype=ncvar.dtype)
+        # Keep the type of the values: a packed variable (scale_factor) is
+        # scaled by netCDF4 when it is written, not truncated to its storage type first
+        values = np.asarray(values)
+        row = np.ma.masked_all(npid, dtype=values.dtype)
         row[pids] = values
         ncvar[self.local_record_count, :npid] = row
 
